@@ -111,11 +111,13 @@ DOC = {
     "MS": lambda a: _expm(-1j * a[0] / 2 * np.kron(np.cos(a[1]) * _X + np.sin(a[1]) * _Y, np.cos(a[1]) * _X + np.sin(a[1]) * _Y)),
     "RZX": lambda t: _expm(-1j * t / 2 * np.kron(_Z, _X)),
 }
+DOC["iSWAP"] = DOC["ISWAP"]          # aliases offered by GATE_CLASS_MAP only
+DOC["SWAPALPHA"] = DOC["SWAPalpha"]
 SHAPES = {**{n: (0, 1) for n in "X Y Z RX RY RZ SNOT H SQRTNOT S T PHASEGATE IDLE QASMU R".split()},
           **{n: (1, 1) for n in "CNOT CX CY CZ CSIGN CS CT CRX CRY CRZ CPHASE".split()},
-          **{n: (0, 2) for n in "SWAP ISWAP SQRTSWAP SQRTISWAP SWAPalpha BERKELEY MS RZX".split()},
+          **{n: (0, 2) for n in "SWAP ISWAP iSWAP SQRTSWAP SQRTISWAP SWAPalpha SWAPALPHA BERKELEY MS RZX".split()},
           "FREDKIN": (1, 2), "TOFFOLI": (2, 1)}
-NARGS = {**{n: 1 for n in "RX RY RZ PHASEGATE CRX CRY CRZ CPHASE SWAPalpha RZX".split()}, "QASMU": 3, "R": 2, "MS": 2}
+NARGS = {**{n: 1 for n in "RX RY RZ PHASEGATE CRX CRY CRZ CPHASE SWAPalpha SWAPALPHA RZX".split()}, "QASMU": 3, "R": 2, "MS": 2}
 
 
 def gate_args(name, rng, i):
@@ -187,26 +189,44 @@ class C09(PropertyCheck):
         "QipVerif.C09.controlled_gate_mixed_shapes", "QipVerif.C09.controlled_gate_mixed_shapes_witness",
         # names offered by the lookup paths
         "QipVerif.C09.path_names", "QipVerif.C09.path_refusals", "QipVerif.C09.class_only_gates",
-        "QipVerif.C09.circuit_dispatch",
+        "QipVerif.C09.circuit_dispatch", "QipVerif.C09.circuit_generic_only",
+        # exact library = translated source
+        "QipVerif.C09.exact_library_is_source", "QipVerif.C09.circuit_semantics_is_source",
+        "QipVerif.GateExact.compactC_fixed_is_source",
     ]
     base_theorems = list(theorems)
-    technique = ("Lean 4: gate functions translated from the source into matrices over C; unitarity and documented form "
-                 "proved for all parameters (ring identities with cos^2+sin^2=1), fixed gates decided in Z[zeta16][1/2] by "
-                 "the kernel; name->function tables of the two lookup paths compared by decide; translator and exact "
-                 "library validated against the implementation")
-    level_text = ("For the gate functions translated from the current source: unitarity and the documented matrix for ALL "
-                  "parameter values as Lean theorems; every fixed gate unitary in exact arithmetic; the generic-name path and "
-                  "the class path resolve to the same function for every shared name (decided on the regenerated tables). "
-                  "Tie: float rendering of the same syntax trees vs the functions on a 15-angle grid incl. boundaries; exact "
-                  "library vs implementation for every name and all 32 angle residues (complete).")
+    technique = ("Lean 4: gate functions, the cphase construction and literal class matrices translated from the source into "
+                 "matrices over C; documented form (closed form, docstring matrix, matrix exponential from the power series) and "
+                 "unitarity proved for all parameters; fixed gates decided in Z[zeta16][1/2] by the kernel AND proved equal to the "
+                 "translated source; controlled_gate: executable model of block_diag + expand_operator composed with C08, proved "
+                 "equal to the block specification for every number of controls / value / placement; one path-agreement theorem per "
+                 "shared name and the name sets of the lookup paths decided on the regenerated tables")
+    level_text = ("For the gate functions translated from the current source: unitarity of EVERY generated gate and the documented "
+                  "matrix for ALL parameter values as Lean theorems (RX/RY/RZ/R/MS/RZX as exp(-i theta/2 A), BERKELEY as "
+                  "exp(i pi/8 (2XX+YY)), SWAPalpha, iSWAP, CPHASE, QASMU, the square-root relations); the exact library equals the "
+                  "translated source for every fixed gate; controlled_gate yields the block matrix (U on the target iff the controls "
+                  "hold the value, identity elsewhere) for every number of controls, control value, single-qubit U and injective "
+                  "placement, unitary when U is; the generic-name path, the class path and the circuit dispatch resolve to the same "
+                  "matrix for every shared name (one generated theorem per name) and the name sets / refusals of the paths are "
+                  "decided on the regenerated tables. Tie: float rendering of the same syntax trees vs the functions on a 15-angle "
+                  "grid incl. boundaries; exact library vs implementation for every name and all 32 angle residues (complete); "
+                  "controlled_gate model vs implementation for every placement of <= 3 controls on <= 4 qubits and every control "
+                  "value incl. refused ones (complete) plus argument shapes.")
     level_note = ("Trusted: Lean kernel; py/translate/gates.py (structural ast mapping, validated numerically each run); qutip's "
-                  "sigmax/sigmay/sigmaz/qeye constants; cphase/controlled_gate/globalphase/rotation are modelled by hand and "
-                  "compared numerically (controlled_gate: all control values, up to 3 controls, all placements on 4 qubits).")
+                  "sigmax/sigmay/sigmaz/qeye/identity/fock_dm constants, tensor = Kronecker product (first factor most significant), "
+                  "block_diag and Qobj dims as modelled in Model/Ctrl.lean (compared with the implementation exhaustively), "
+                  "Qobj.tidyup() of the CPHASE class path taken as the identity; globalphase/rotation are not modelled. cphase is "
+                  "translated on its default arguments (N=2, control=0, target=1), the only call both paths make. controlled_gate "
+                  "with one bare-integer and one list argument is refused by the current source (compatibility line tests `targets` "
+                  "twice): modelled as is, theorem controlled_gate_mixed_shapes, proposed fix fixes/C09-1.patch.")
     trusted_base = ["Lean 4.33 kernel; axioms propext, Classical.choice, Quot.sound",
                     "py/translate/gates.py (ast -> Lean), validated by drv_gates float evaluation against the functions",
+                    "Model/Ctrl.lean as a description of block_diag / Qobj dims / expand_operator, validated exhaustively against "
+                    "controlled_gate (all placements of <= 3 controls on <= 4 qubits, all control values, shapes)",
                     "py/props/c09.py documented matrices (oracle) and harness"]
-    rule = ("case = (gate function or gate name, parameter tuple from a grid with boundary values + seeded random, path); "
-            "non-trivial = parametric gate or multi-qubit gate")
+    rule = ("case = (gate function or gate name, parameter tuple from a grid with boundary values + seeded random, path) or "
+            "(controlled_gate request: controls, targets, N, control value); non-trivial = parametric gate, multi-qubit gate or "
+            "any controlled_gate request")
 
     def regenerate(self, ctx):
         changed, known, chain, classes, class_map = tg.regenerate()
@@ -293,6 +313,46 @@ class C09(PropertyCheck):
                 if not ok:
                     res.disagree(inp, str(want)[:200], str(got)[:200], "extracted call specification vs Gate.get_compact_qobj",
                                  {"kind": "gate", "name": name, "arg": arg})
+
+        # (c') the class table: keys = the runtime GATE_CLASS_MAP, class specification = behaviour of the class path;
+        #      names outside the generic chain are refused by Gate(name).get_compact_qobj()
+        import qutip
+        from qutip_qip.operations import gateclass
+        ns2 = dict(ns, sigmax=qutip.sigmax, sigmay=qutip.sigmay, sigmaz=qutip.sigmaz)
+        for k in getattr(self, "extra", {}):
+            if k.startswith("cls_"):
+                ns2[k] = (lambda kk: (lambda *a: call_fn(kk, list(a[0]) if len(a) == 1 and isinstance(a[0], (list, tuple)) else list(a))))(k)
+        inp = {"table": "GATE_CLASS_MAP keys"}
+        res.case(inp, nontrivial=True, tags=["path-table"])
+        if list(self.class_map) != list(gateclass.GATE_CLASS_MAP):
+            res.disagree(inp, list(self.class_map), list(gateclass.GATE_CLASS_MAP), "extracted keys of GATE_CLASS_MAP", None)
+        for name, cls in self.class_map.items():
+            spec = self.classes.get(cls, "?")
+            for i in range(3):
+                arg = gate_args(name, rng, i) if name in SHAPES else None
+                inp = {"name": name, "class-spec": spec, "arg": arg}
+                res.case(inp, nontrivial=arg is not None, tags=["path-table", "class"])
+                try:
+                    want = eval(spec.replace("*arg", "*ARG").replace("arg", "ARG"), dict(ns2), {"ARG": arg}).full()
+                    got = paths(name, arg)["class"]
+                    ok = want.shape == got.shape and np.abs(want - got).max() < 1e-12      # CPHASE class path applies tidyup()
+                except Exception as e:
+                    ok, want, got = False, "exc", repr(e)
+                if not ok:
+                    res.disagree(inp, str(want)[:200], str(got)[:200], "extracted call specification vs the gate class",
+                                 {"kind": "gate", "name": name, "arg": arg} if name in DOC else None)
+        for name in [n for n in self.class_map if n not in self.chain] + ["GLOBALPHASE", "NOSUCHGATE"]:
+            inp = {"name": name, "generic": "refused"}
+            res.case(inp, nontrivial=False, tags=["path-table", "refusal"])
+            try:
+                Gate(name, targets=[0]).get_compact_qobj()
+                got = "accepted"
+            except NotImplementedError:
+                got = "refused"
+            except Exception as e:
+                got = "exc:" + type(e).__name__
+            if got != "refused":
+                res.disagree(inp, "refused", got, "a name outside the extracted generic chain", None)
 
         # (d) model of controlled_gate (Model/Ctrl.lean) vs the implementation: every number of controls <= 3, every
         #     placement on <= 4 qubits, every control value incl. the refused ones, N given / defaulted; argument shapes
@@ -407,6 +467,8 @@ class C09(PropertyCheck):
                 R = controlled_gate(qutip.Qobj(U), controls=cs, targets=ts, N=N, control_value=v).full()
             except Exception as e:
                 return True, f"controlled_gate(controls={cs}, targets={ts}, N={N}, control_value={v}) raises {type(e).__name__}: {e}"
+            cs = [cs] if isinstance(cs, int) else list(cs)      # a bare integer means a one-element list
+            ts = [ts] if isinstance(ts, int) else list(ts)
             nc = len(cs)
             blocks = np.eye(2 ** (nc + 1), dtype=complex)
             blocks[2 * v:2 * v + 2, 2 * v:2 * v + 2] = U
@@ -417,7 +479,7 @@ class C09(PropertyCheck):
             if d > 1e-12:
                 return True, f"controlled gate differs from the block specification by {d:.3g}"
             d = np.abs(R.conj().T @ R - np.eye(len(R))).max()
-            return (d > 1e-10), f"controlled gate of a unitary is not unitary (|R*R-1| = {d:.3g})" if d > 1e-10 else "block specification met"
+            return bool(d > 1e-10), f"controlled gate of a unitary is not unitary (|R*R-1| = {d:.3g})" if d > 1e-10 else "block specification met"
         if w["kind"] == "ctrl-malformed":
             return False, "malformed request to controlled_gate (outside the property); only the refusal kind is compared"
         return False, "unknown witness"
